@@ -427,6 +427,59 @@ Example C11_nonvacuous_simpson_exact :
   | Some r => forallb (fun n => (2 <=? n)%nat) (er_container_sizes r) && Nat.eqb (length (er_container_sizes r)) 2
   | None => false end = true.
 Proof. vm_compute. reflexivity. Qed.
+(* ==================================================================================================================
+   PHASE 4: get_normalized_grid_levels, acceptance lemmas (the former "whenever the model returns a result" conditions). *)
+From SG Require Import Proofs.RombergNormLevels Proofs.RombergAccept.
+(* --- get_normalized_grid_levels of EVERY container of 2^K >= 2 slices: boundary levels 0, inner point i (1 <= i < 2^K) gets its
+       POSITIONAL dyadic level l: 2^(K-l) divides i, 2^(K-l+1) does not - independent of the global levels of the points; the
+       level is determined uniquely by this property; a variant ranking the global levels of the inner points (seeded change
+       C11r4) is refuted by a witness (a 4-slice container starting at an odd index: global inner levels 3,4,2) *)
+Theorem C11_normalized_levels_positional : forall K i, (1 <= K)%nat -> (1 <= i < 2 ^ K)%nat ->
+  let l := nth i (normalized_levels (S (2 ^ K))) 0%nat in
+  (1 <= l <= K)%nat /\ Nat.divide (2 ^ (K - l)) i /\ ~ Nat.divide (2 ^ (S K - l)) i.
+Proof. exact normalized_levels_positional. Qed.
+Theorem C11_normalized_levels_ends : forall K, (1 <= K)%nat ->
+  nth 0 (normalized_levels (S (2 ^ K))) 1%nat = 0%nat /\ nth (2 ^ K) (normalized_levels (S (2 ^ K))) 1%nat = 0%nat /\
+  length (normalized_levels (S (2 ^ K))) = S (2 ^ K).
+Proof. exact normalized_levels_ends. Qed.
+Theorem C11_positional_level_unique : forall K i l l', (1 <= l <= K)%nat -> (1 <= l' <= K)%nat ->
+  Nat.divide (2 ^ (K - l)) i -> ~ Nat.divide (2 ^ (S K - l)) i ->
+  Nat.divide (2 ^ (K - l')) i -> ~ Nat.divide (2 ^ (S K - l')) i -> l = l'.
+Proof. exact positional_level_unique. Qed.
+Theorem C11_rank_normalization_refuted : exists inner_levels, length inner_levels = 3%nat /\
+  rank_normalized inner_levels <> normalized_levels (S (2 ^ 2)).
+Proof. exact rank_variant_refuted. Qed.
+Print Assumptions C11_normalized_levels_positional.
+Print Assumptions C11_rank_normalization_refuted.
+(* --- BalancedExtrapolationGrid on the complete grid, EVERY depth, UNCONDITIONALLY: set_grid accepts (the complete cell tree is
+       balanced), the final dictionary has pairwise distinct keys that are all grid points (the per-case checker keys_in_grid
+       is a theorem here), the dictionary and the returned weight list are exact to degree 2m-1 *)
+Theorem C11_balanced_complete_grid_unconditional : forall a b m, a < b -> (1 <= m)%nat ->
+  exists d ws, balanced_dict (complete_grid a b m) (complete_levels m) = Some d /\
+               balanced_weights (complete_grid a b m) (complete_levels m) = Some ws /\
+               keys_in_grid d (complete_grid a b m) = true /\
+               forall p, (p <= 2 * m - 1)%nat ->
+                 wpow p d = Ik p a b /\ dotQ (map (pw p) (complete_grid a b m)) ws = Ik p a b.
+Proof. exact balanced_complete_unconditional. Qed.
+Print Assumptions C11_balanced_complete_grid_unconditional.
+(* --- a container of 2^K >= 2 equal adjacent slices ALWAYS produces weights (no assert of the weight classes fails), default
+       and Simpson version; the complete grid with Simpson containers is accepted and exact to degree 3 for every m *)
+Theorem C11_grouped_container_accepted : forall lo sv K h c,
+  length c = (2 ^ K)%nat -> (1 <= K)%nat -> chain c -> Forall (fun s => sl_width s = h) c ->
+  exists cs, container_final_from lo sv CV_Default c = Some cs.
+Proof. exact multi_container_defined. Qed.
+Theorem C11_simpson_container_accepted : forall lo sv K h c,
+  length c = (2 ^ K)%nat -> (1 <= K)%nat -> chain c -> Forall (fun s => sl_width s = h) c ->
+  exists cs, container_final_from lo sv CV_Simpson c = Some cs.
+Proof. exact simpson_container_defined. Qed.
+Theorem C11_complete_grid_simpson_exact_degree : forall g sv force a b m, a < b -> (1 <= m)%nat -> g <> G_Unit ->
+  exists r, extrapolation_grid_from 1 g sv CV_Simpson force (complete_grid a b m) (complete_levels m) = Some r /\
+            er_grid r = complete_grid a b m /\ er_container_sizes r = [(2 ^ m)%nat] /\
+            forall k, (k <= 3)%nat -> wpow k (er_dict r) = Ik k a b.
+Proof. exact complete_grid_simpson_exact. Qed.
+Print Assumptions C11_simpson_container_accepted.
+Print Assumptions C11_complete_grid_simpson_exact_degree.
+
 (* non-vacuity: depth 3 on [-3/4, 5/4], GROUPED_OPTIMIZED with forced balancing: one container of 8 slices, keys aligned *)
 Example C11_nonvacuous_exact_degree :
   match extrapolation_grid_from 0 G_Optimized SV_Romberg CV_Default true
